@@ -12,10 +12,13 @@
      unchecked), and otherwise throws unmatchedToken for a token of the list;
    - Tokenizer::validate, run between the simplification passes, accepts only lists whose
      link structure is intact (for tokens carrying arbitrary links);
+   - the #if constant folder (simplecpp) reaches no undefined behaviour in its own long long
+     arithmetic for * / % + - (refuted, with witnesses replayed on a sanitizer build, for << >>);
    - in CppCheck::checkInternal and CppCheck::checkClang (handler lists regenerated from
      lib/cppcheck.cpp on every run) each documented exception class ends in the promised
      finding, none escapes to std::terminate. *)
 From CV Require Import Robust.Validate Robust.ValidateProofs Robust.Compose.
+From CV Require Import Robust.PPArith Robust.PPArithProofs.
 From CV Require Import Robust.Links Robust.LinksProofs Robust.Funnel Robust.FunnelProofs Robust.Gen_Funnel.
 
 Theorem C13_create_links_never_tops_an_empty_stack :
@@ -86,6 +89,31 @@ Example C13_validate_example :
   validate [(VOpen, Some 1); (VClose, None)] = VErr 1 /\
   validate [(VOther, Some 0)] = VErr 0.
 Proof. vm_compute. repeat split. Qed.
+
+(* the #if constant folder's own arithmetic on long long: for * / % + - no operand pair reaches
+   undefined behaviour (zero divisor and LLONG_MIN with -1 are thrown as std::overflow_error, which
+   ends as a finding; products, sums and differences are computed modulo 2^64), a value it yields is
+   a long long, and where the built-in operator is defined the folder computes exactly it *)
+Theorem C13_if_folder_guarded_arithmetic_has_no_ub :
+  forall o a b, guarded o = true -> in_ll a = true -> in_ll b = true ->
+    fold o a b <> AUB /\ (forall r, fold o a b = AVal r -> in_ll r = true).
+Proof. exact fold_guarded_no_ub. Qed.
+Print Assumptions C13_if_folder_guarded_arithmetic_has_no_ub.
+
+Theorem C13_if_folder_computes_the_builtin_operator :
+  forall o a b r, guarded o = true -> cxx o a b = AVal r -> fold o a b = AVal r.
+Proof. exact fold_agrees_with_cxx. Qed.
+Print Assumptions C13_if_folder_computes_the_builtin_operator.
+
+(* both division guards are needed *)
+Theorem C13_if_folder_division_guards_needed :
+  cxx ADiv 1 0 = AUB /\ cxx ARem 1 0 = AUB /\ cxx ADiv MINLL (-1) = AUB /\ cxx ARem MINLL (-1) = AUB.
+Proof. exact div_guards_needed. Qed.
+
+(* the shifts have no guard: the full statement (no UB for every operator) is false of the code *)
+Theorem C13_if_folder_shift_refuted :
+  in_ll 1 = true /\ in_ll 64 = true /\ fold AShl 1 64 = AUB /\ fold AShl (-1) 1 = AUB /\ fold AShr 1 70 = AUB.
+Proof. exact shift_ub_witness. Qed.
 
 (* the exception funnel, on the handler lists read from the source *)
 Theorem C13_documented_exceptions_end_as_findings :
